@@ -13,6 +13,12 @@ const byte CByte = -7
 const double CDbl = 2.5
 const double CDblInt = 3
 const double CDblExp = 1e3
+const double CDblPi = 3.141592653589793
+const double CDblNear = 1.00000000001
+const double CDblTiny = 1e-60
+const double CDblBig = 1.5e300
+const double CDblNeg = -0.000125
+const list<double> CDblList = [0.1, 2.718281828459045]
 const bool CTrue = true
 const bool CFalse = false
 const bool COne = 1
@@ -61,6 +67,7 @@ struct Defs {
   7: optional bool ob = 1
   8: double dd = 2.5
   9: optional double od = 4
+  27: optional double op = 3.141592653589793
   10: Color de = Color.Green
   11: optional Color oe = 5
   12: list<i32> dl = [1, 2]
